@@ -52,7 +52,9 @@ theorem sendUnsentBe_same (cs : List Change) (fuel : Nat) :
     · split
       · exact SameAck.trans (raiseSent_same _ _) (ih _ _)
       · split
-        · exact SameAck.trans (raiseSent_same _ _) (ih _ _)
+        · split
+          · exact SameAck.trans (raiseSent_same _ _) (ih _ _)
+          · exact SameAck.trans (raiseSent_same _ _) (ih _ _)
         · exact SameAck.trans (raiseSent_same _ _) (ih _ _)
 
 theorem dropReq_same (p : Proxy) (l : List Nat) : SameAck p { p with requested := l } := by
@@ -203,12 +205,16 @@ theorem sendUnsentBe_data (cs : List Change) (fuel : Nat) :
         · simp [dataOf_append, dataOf, subData] at h; exact Or.inr h
       · split at hc
         · rename_i c0 hf
-          rcases ih _ _ c hc with h | h
-          · exact Or.inl h
-          · simp [dataOf_append, dataOf, subData] at h
-            rcases h with h | h
-            · exact Or.inr h
-            · subst h; exact Or.inl (findChange_mem hf)
+          split at hc
+          · rcases ih _ _ c hc with h | h
+            · exact Or.inl h
+            · simp [dataOf_append, dataOf, subData] at h
+              rcases h with h | h
+              · exact Or.inr h
+              · subst h; exact Or.inl (findChange_mem hf)
+          · rcases ih _ _ c hc with h | h
+            · exact Or.inl h
+            · simp [dataOf_append, dataOf, subData] at h; exact Or.inr h
         · rcases ih _ _ c hc with h | h
           · exact Or.inl h
           · simp [dataOf_append, dataOf, subData] at h; exact Or.inr h
